@@ -504,3 +504,235 @@ Section Ext.
     intros H. apply (pval_PV (2 * length s)). apply (proj1 (parser_ext _)). apply H; [lia | lia].
   Qed.
 End Ext.
+
+(* ------------------------------------------------------------------------- *)
+(* Part 5: the string escaper is read back *)
+
+Lemma pstr_plain c t : sclass_of c = SPlain ->
+  pstr (c :: t) = match pstr t with Some (b, r') => Some (c :: b, r') | None => None end.
+Proof. intros H. cbn [pstr]. rewrite H. reflexivity. Qed.
+
+Lemma pstr_simple e t : eclass_of e = ESimple ->
+  pstr (92 :: e :: t) = match pstr t with Some (b, r') => Some (92 :: e :: b, r') | None => None end.
+Proof. intros H. cbn [pstr]. change (sclass_of 92) with SBack. cbv iota. rewrite H. reflexivity. Qed.
+
+Lemma pstr_u h1 h2 h3 h4 t : is_hex h1 && is_hex h2 && is_hex h3 && is_hex h4 = true ->
+  pstr (92 :: 117 :: h1 :: h2 :: h3 :: h4 :: t) =
+  match pstr t with Some (b, r') => Some (92 :: 117 :: h1 :: h2 :: h3 :: h4 :: b, r') | None => None end.
+Proof.
+  intros H. cbn [pstr]. change (sclass_of 92) with SBack. change (eclass_of 117) with EU. cbv iota. rewrite H. reflexivity.
+Qed.
+
+Lemma high_plain x : 128 <= x -> sclass_of x = SPlain.
+Proof.
+  intros H. unfold sclass_of.
+  replace (x =? 34) with false by (symmetry; apply N.eqb_neq; lia).
+  replace (x =? 92) with false by (symmetry; apply N.eqb_neq; lia).
+  replace (x <? 32) with false by (symmetry; apply N.ltb_ge; lia). reflexivity.
+Qed.
+
+Lemma pstr_plain_app a : forall t, (forall x, In x a -> sclass_of x = SPlain) ->
+  pstr (a ++ t) = match pstr t with Some (b, r') => Some (a ++ b, r') | None => None end.
+Proof.
+  induction a as [|x a IH]; intros t H; cbn [app].
+  - destruct (pstr t) as [[b r']|]; reflexivity.
+  - rewrite pstr_plain by (apply H; left; reflexivity). rewrite IH by (intros y Hy; apply H; right; exact Hy).
+    destruct (pstr t) as [[b r']|]; reflexivity.
+Qed.
+
+Lemma is_hex_hexdig n : n < 16 -> is_hex (hexdig n) = true.
+Proof.
+  intros H. unfold hexdig, is_hex, is_digit. destruct (n <? 10) eqn:E.
+  - apply N.ltb_lt in E. replace (48 <=? 48 + n) with true by (symmetry; apply N.leb_le; lia).
+    replace (48 + n <=? 57) with true by (symmetry; apply N.leb_le; lia). reflexivity.
+  - apply N.ltb_ge in E. replace (97 <=? 87 + n) with true by (symmetry; apply N.leb_le; lia).
+    replace (87 + n <=? 102) with true by (symmetry; apply N.leb_le; lia). cbn [andb]. rewrite orb_true_r. reflexivity.
+Qed.
+
+Lemma hexval_hexdig n : n < 16 -> hexval (hexdig n) = n.
+Proof.
+  intros H. unfold hexdig, hexval, is_digit. destruct (n <? 10) eqn:E.
+  - apply N.ltb_lt in E. replace (48 <=? 48 + n) with true by (symmetry; apply N.leb_le; lia).
+    replace (48 + n <=? 57) with true by (symmetry; apply N.leb_le; lia). cbn [andb]. lia.
+  - apply N.ltb_ge in E. replace (87 + n <=? 57) with false by (symmetry; apply N.leb_gt; lia). rewrite andb_false_r.
+    replace (97 <=? 87 + n) with true by (symmetry; apply N.leb_le; lia).
+    replace (87 + n <=? 102) with true by (symmetry; apply N.leb_le; lia). cbn [andb]. lia.
+Qed.
+
+Lemma pstr_u00 c t : c < 256 ->
+  pstr (u00 c ++ t) = match pstr t with Some (b, r') => Some (u00 c ++ b, r') | None => None end.
+Proof.
+  intros Hc. unfold u00. cbn [app]. apply pstr_u.
+  assert (H1 : c / 16 < 16) by (apply N.div_lt_upper_bound; lia).
+  assert (H2 : c mod 16 < 16) by (apply N.mod_lt; lia).
+  rewrite (is_hex_hexdig _ H1), (is_hex_hexdig _ H2). reflexivity.
+Qed.
+
+Lemma pstr_esc_ascii c t : c < 128 ->
+  pstr (esc_ascii c ++ t) = match pstr t with Some (b, r') => Some (esc_ascii c ++ b, r') | None => None end.
+Proof.
+  intros Hc. unfold esc_ascii.
+  destruct ((c =? 34) || (c =? 92)) eqn:E1.
+  { apply orb_true_iff in E1 as [E|E]; apply N.eqb_eq in E; subst c; cbn [app]; apply pstr_simple; reflexivity. }
+  destruct (c =? 8) eqn:E2; [cbn [app]; apply pstr_simple; reflexivity|].
+  destruct (c =? 12) eqn:E3; [cbn [app]; apply pstr_simple; reflexivity|].
+  destruct (c =? 10) eqn:E4; [cbn [app]; apply pstr_simple; reflexivity|].
+  destruct (c =? 13) eqn:E5; [cbn [app]; apply pstr_simple; reflexivity|].
+  destruct (c =? 9) eqn:E6; [cbn [app]; apply pstr_simple; reflexivity|].
+  destruct ((c <? 32) || (c =? 60) || (c =? 62) || (c =? 38)) eqn:E7; [apply pstr_u00; lia|].
+  cbn [app]. apply pstr_plain.
+  apply orb_false_iff in E1 as [A B]. apply orb_false_iff in E7 as [E7 _]. apply orb_false_iff in E7 as [E7 _].
+  apply orb_false_iff in E7 as [E7 _]. unfold sclass_of. rewrite A, B, E7. reflexivity.
+Qed.
+
+Lemma pstr_esc_len m : forall s r, (length s <= m)%nat -> pstr (esc O s ++ 34 :: r) = Some (esc O s, r).
+Proof.
+  induction m as [|m IH]; intros s r Hl.
+  - destruct s; [reflexivity | cbn in Hl; lia].
+  - destruct s as [|c s']; [reflexivity|]. cbn [length] in Hl. cbn [esc].
+    destruct (c <? 128) eqn:Ec.
+    + apply N.ltb_lt in Ec. rewrite <- app_assoc, (pstr_esc_ascii c _ Ec), IH by lia. reflexivity.
+    + apply N.ltb_ge in Ec. destruct (utf8_seq_len c s') as [|n] eqn:El.
+      * rewrite <- app_assoc. unfold esc_fffd. cbn [app]. rewrite pstr_u by reflexivity. rewrite IH by lia. reflexivity.
+      * pose proof (seq_len_cont _ _ _ El) as (Hc & Hn & Hh & Hr).
+        assert (Hgen : pstr ((c :: esc n s') ++ 34 :: r) = Some (c :: esc n s', r)).
+        { rewrite esc_firstn. cbn [app]. rewrite pstr_plain by (apply high_plain; exact Hc).
+          rewrite <- app_assoc, pstr_plain_app.
+          - rewrite IH by (rewrite skipn_length; lia). reflexivity.
+          - intros x Hx. apply high_plain. unfold all_high in Hh. rewrite forallb_forall in Hh. apply N.leb_le. exact (Hh x Hx). }
+        destruct s' as [|c2 [|c3 r3]]; try exact Hgen.
+        destruct ((c =? 226) && (c2 =? 128) && ((c3 =? 168) || (c3 =? 169))); [|exact Hgen].
+        rewrite <- app_assoc. unfold esc_202x. cbn [app]. rewrite pstr_u.
+        -- rewrite IH by (cbn [length] in Hl; lia). reflexivity.
+        -- assert (H2 : c3 mod 16 < 16) by (apply N.mod_lt; lia). rewrite (is_hex_hexdig _ H2). reflexivity.
+Qed.
+
+(* the escaped body is a well-formed string body, for EVERY byte string *)
+Lemma pstr_escape_body s r : pstr (escape_body s ++ 34 :: r) = Some (escape_body s, r).
+Proof. apply (pstr_esc_len (length s)). apply le_n. Qed.
+
+Lemma unq_firstn n : forall r, unq n r = firstn n r ++ unq O (skipn n r).
+Proof.
+  induction n as [|n IH]; intros r; [reflexivity|].
+  destruct r as [|c r]; [reflexivity|]. cbn [unq firstn skipn app]. rewrite IH. reflexivity.
+Qed.
+
+Lemma unq_u00 c t : c < 128 -> unq O (u00 c ++ t) = c :: unq O t.
+Proof.
+  intros Hc. unfold u00. cbn [app unq].
+  change (92 =? 92) with true. change (117 =? 117) with true. cbv iota zeta.
+  assert (H1 : c / 16 < 16) by (apply N.div_lt_upper_bound; lia).
+  assert (H2 : c mod 16 < 16) by (apply N.mod_lt; lia).
+  assert (Hu : hex4 48 48 (hexdig (c / 16)) (hexdig (c mod 16)) = c).
+  { unfold hex4. change (hexval 48) with 0. rewrite (hexval_hexdig _ H1), (hexval_hexdig _ H2).
+    pose proof (N.div_mod' c 16). lia. }
+  rewrite Hu.
+  replace (is_surr c) with false by (symmetry; unfold is_surr, in_rng; apply andb_false_iff; left; apply N.leb_gt; lia).
+  unfold utf8_enc. replace (c <? 128) with true by (symmetry; apply N.ltb_lt; exact Hc). reflexivity.
+Qed.
+
+Lemma unq_esc_ascii c t : c < 128 -> unq O (esc_ascii c ++ t) = c :: unq O t.
+Proof.
+  intros Hc. unfold esc_ascii.
+  destruct ((c =? 34) || (c =? 92)) eqn:E1.
+  { apply orb_true_iff in E1 as [E|E]; apply N.eqb_eq in E; subst c; reflexivity. }
+  destruct (c =? 8) eqn:E2; [apply N.eqb_eq in E2; subst c; reflexivity|].
+  destruct (c =? 12) eqn:E3; [apply N.eqb_eq in E3; subst c; reflexivity|].
+  destruct (c =? 10) eqn:E4; [apply N.eqb_eq in E4; subst c; reflexivity|].
+  destruct (c =? 13) eqn:E5; [apply N.eqb_eq in E5; subst c; reflexivity|].
+  destruct (c =? 9) eqn:E6; [apply N.eqb_eq in E6; subst c; reflexivity|].
+  destruct ((c <? 32) || (c =? 60) || (c =? 62) || (c =? 38)) eqn:E7; [apply unq_u00; exact Hc|].
+  cbn [app unq]. apply orb_false_iff in E1 as [_ B]. rewrite B.
+  replace (c <? 128) with true by (symmetry; apply N.ltb_lt; exact Hc). reflexivity.
+Qed.
+
+Lemma unq_202x c3 t : c3 = 168 \/ c3 = 169 -> unq O (esc_202x c3 ++ t) = 226 :: 128 :: c3 :: unq O t.
+Proof. intros [-> | ->]; reflexivity. Qed.
+
+Lemma unq_esc_len m : forall s, (length s <= m)%nat -> valid_utf8_k O s = true -> unq O (esc O s) = s.
+Proof.
+  induction m as [|m IH]; intros s Hl Hv.
+  - destruct s; [reflexivity | cbn in Hl; lia].
+  - destruct s as [|c s']; [reflexivity|]. cbn [length] in Hl. cbn [valid_utf8_k] in Hv. cbn [esc].
+    destruct (c <? 128) eqn:Ec.
+    + apply N.ltb_lt in Ec. rewrite (unq_esc_ascii c _ Ec), IH; [reflexivity | lia | exact Hv].
+    + apply N.ltb_ge in Ec. destruct (utf8_seq_len c s') as [|n] eqn:El; [discriminate Hv|].
+      pose proof (seq_len_cont _ _ _ El) as (Hc & Hn & Hh & Hr).
+      rewrite valid_k_firstn in Hv. apply andb_true_iff in Hv as [_ Hv].
+      assert (Hgen : unq O (c :: esc n s') = c :: s').
+      { rewrite esc_firstn. cbn [unq].
+        replace (c =? 92) with false by (symmetry; apply N.eqb_neq; lia).
+        replace (c <? 128) with false by (symmetry; apply N.ltb_ge; lia).
+        rewrite (seq_len_prefix _ _ _ _ El). rewrite unq_firstn.
+        destruct (firstn_app_exact n (firstn n s') (esc O (skipn n s')) Hn) as [-> ->].
+        rewrite IH; [|rewrite skipn_length; lia | exact Hv]. rewrite firstn_skipn. reflexivity. }
+      destruct s' as [|c2 [|c3 r3]]; try exact Hgen.
+      destruct ((c =? 226) && (c2 =? 128) && ((c3 =? 168) || (c3 =? 169))) eqn:E; [|exact Hgen].
+      apply andb_true_iff in E as [E E3]. apply andb_true_iff in E as [E1 E2].
+      apply N.eqb_eq in E1, E2. subst c c2.
+      assert (H3 : c3 = 168 \/ c3 = 169) by (apply orb_true_iff in E3 as [E3|E3]; apply N.eqb_eq in E3; auto).
+      rewrite (unq_202x _ _ H3).
+      assert (n = 2%nat) by (destruct H3 as [-> | ->]; vm_compute in El; injection El as <-; reflexivity). subst n.
+      cbn [skipn] in Hv. rewrite IH; [reflexivity | cbn [length] in Hl; lia | exact Hv].
+Qed.
+
+(* unquote undoes the escaper on valid UTF-8 *)
+Lemma unquote_escape_body s : valid_utf8 s = true -> unquote (escape_body s) = s.
+Proof. intros H. apply (unq_esc_len (length s)); [apply le_n | exact H]. Qed.
+
+(* no value starts with white space *)
+Lemma pval_not_ws f d s c r : pval f d s = Some (c, r) -> exists x s', s = x :: s' /\ is_ws x = false.
+Proof.
+  destruct f as [|f]; [discriminate|]. destruct s as [|x s']; [discriminate|]. intros H.
+  exists x, s'. split; [reflexivity|]. destruct (is_ws x) eqn:E; [exfalso|reflexivity].
+  unfold is_ws in E. repeat (apply orb_true_iff in E as [E|E]); apply N.eqb_eq in E; subst x; vm_compute in H; discriminate H.
+Qed.
+
+Lemma PV_not_ws d s c r : PV d s c r -> split_ws s = ([], s).
+Proof.
+  intros H. pose proof (PV_value_at _ _ _ _ H) as Hv. unfold value_at in Hv.
+  destruct (pval_not_ws _ _ _ _ _ Hv) as (x & s' & -> & Hx). apply split_ws_nows. exact Hx.
+Qed.
+
+Lemma PV_not_ws_app d s c r t : PV d s c r -> split_ws (s ++ t) = ([], s ++ t).
+Proof.
+  intros H. pose proof (PV_value_at _ _ _ _ H) as Hv. unfold value_at in Hv.
+  destruct (pval_not_ws _ _ _ _ _ Hv) as (x & s' & -> & Hx). cbn [app]. apply split_ws_nows. exact Hx.
+Qed.
+
+(* a tight text is a document: no white space around it *)
+Lemma parse_doc_PV s c : PV 0 s c [] -> parse_doc s = Some ([], c, []).
+Proof.
+  intros H. unfold parse_doc, parse_prefix. rewrite (PV_not_ws _ _ _ _ H), (PV_value_at _ _ _ _ H). reflexivity.
+Qed.
+
+(* spec_raw_value *)
+Lemma raw_value_tight v : tight_at 0 v = true -> raw_value v = Some v.
+Proof.
+  intros H. destruct (tight_PV _ _ H) as [c Hc]. unfold raw_value. rewrite (parse_doc_PV _ _ Hc).
+  rewrite <- (PV_text _ _ _ _ Hc). reflexivity.
+Qed.
+
+(* json.Marshal of a string is one string literal whose body is the escaped text *)
+Lemma escape_string_PV s d r : PV d (escape_string s ++ r) (CStr (escape_body s)) r.
+Proof.
+  intros g d' Hg _. destruct g as [|g]; [unfold escape_string in Hg; cbn [app length] in Hg; lia|].
+  unfold escape_string. cbn [app pval tk]. change (tok_of 34) with TQuote. cbv iota.
+  rewrite <- app_assoc. cbn [app]. rewrite pstr_escape_body. reflexivity.
+Qed.
+
+(* spec_string *)
+Lemma unmarshal_string_escape s :
+  unmarshal_string (escape_string s) = Some (Some (unquote (escape_body s))) /\
+  forall d, tight_at d (escape_string s) = true.
+Proof.
+  pose proof (escape_string_PV s) as H. split.
+  - unfold unmarshal_string. specialize (H 0 []). rewrite app_nil_r in H. rewrite (parse_doc_PV _ _ H). reflexivity.
+  - intros d. specialize (H d []). rewrite app_nil_r in H. exact (PV_tight _ _ _ H).
+Qed.
+
+Lemma string_round_trip s : valid_utf8 s = true ->
+  unmarshal_string (escape_string s) = Some (Some s) /\ forall d, tight_at d (escape_string s) = true.
+Proof.
+  intros Hv. destruct (unmarshal_string_escape s) as [A B]. rewrite (unquote_escape_body _ Hv) in A. split; assumption.
+Qed.
